@@ -276,7 +276,9 @@ def do_replay(ctx, mod, path):
         return 1 if ctx.lean.broken else 0
     if hasattr(mod, 'case_from_json'):
         case = mod.case_from_json(case)
-    r = mod.run_impl(case)
+    st, r = _worker(case)
+    if st != 'ok':
+        raise HarnessError('run_impl crashed on the replayed case:\n%s' % r)
     print('case     :', json.dumps(common.jsonable(case))[:2000])
     print('impl obs :', json.dumps(common.jsonable(r.get('obs')))[:2000])
     bad = False
@@ -364,11 +366,15 @@ def main(argv=None):
         if run.d_fail:
             case, df, r = run.d_fail[0]
 
+            def guarded(c):
+                st, r = _worker(c)       # same watchdog / exception policy as in the pool
+                return r if st == 'ok' else {'obs': 'harness-crash', 'd_fail': []}
+
             def still(c):
-                rr = mod.run_impl(c)
+                rr = guarded(c)
                 return any(x['sig'] == df['sig'] for x in (rr.get('d_fail') or []))
             small = shrink(mod, case, still)
-            rr = mod.run_impl(small)
+            rr = guarded(small)
             dfs = [x for x in (rr.get('d_fail') or []) if x['sig'] == df['sig']] or [df]
             payload = {'property': args.prop, 'kind': 'failing-input', 'signature': dfs[0]['sig'],
                        'what': dfs[0]['what'], 'case': small, 'impl_obs': rr.get('obs'),
